@@ -21,7 +21,9 @@ def backends():
     out['numpy'] = dict(ravel=onp.tree_ravel, mk=lambda a, dt: np.asarray(a, dtype=dt),
                         chain=[np.bool_, np.int8, np.int16, np.int32, np.int64, np.float64, np.complex128],
                         tonp=lambda x: np.asarray(x), dtype_of=lambda x: np.asarray(x).dtype,
-                        extra=[np.uint8, np.float16, np.float32, np.complex64, np.uint32])
+                        extra=[np.uint8, np.float16, np.float32, np.complex64, np.uint32],
+                        layouts=[lambda x: np.asfortranarray(x), lambda x: np.ascontiguousarray(x.T).T,
+                                 lambda x: np.repeat(x, 2, axis=-1)[..., ::2]])
     try:
         import jax
         import jax.numpy as jnp
@@ -39,7 +41,9 @@ def backends():
                             chain=[torch.bool, torch.int8, torch.int16, torch.int32, torch.int64, torch.float32,
                                    torch.complex64],
                             tonp=lambda x: x.detach().cpu().numpy(), dtype_of=lambda x: x.dtype,
-                            extra=[torch.uint8, torch.float16, torch.float64])
+                            extra=[torch.uint8, torch.float16, torch.float64],
+                            layouts=[lambda x: x.transpose(0, -1).contiguous().transpose(0, -1),
+                                     lambda x: x.repeat_interleave(2, dim=-1)[..., ::2]])
     except Exception as e:  # noqa: BLE001
         out['torch_error'] = repr(e)
     return out
@@ -80,7 +84,12 @@ def realize_arrays(o, leaves, be):
     # reuse the generic realiser by pre-seeding the leaf table
     tab = {}
     for i, (sh, d, vals) in leaves.items():
-        tab[i] = be['mk'](np.asarray(vals, dtype=np.int64).reshape(sh), be['chain'][d])
+        a = np.asarray(vals, dtype=np.int64).reshape(sh)
+        x = be['mk'](a, be['chain'][d])
+        if len(sh) >= 2 and i % 3 == 0 and be.get('layouts'):
+            # same logical array, other memory layout (transposed view / Fortran order / strided)
+            x = be['layouts'][i % len(be['layouts'])](x)
+        tab[i] = x
     return world.realize(o, None, tab)
 
 
@@ -121,13 +130,21 @@ def check_backend(res, name, be, rng, n):
         if got.ndim != 1 or got.dtype != want.dtype or got.tobytes() != want.tobytes():
             res.fail(f'{name}: ravel is not the concatenation of the raveled leaves in the promoted dtype', case,
                      f'{got.dtype}{got.shape} vs {want.dtype}{want.shape}')
-        back = unravel(flat)
+        rb = world.attempt(lambda: unravel(flat))
+        if rb[0] != 0:
+            res.fail(f'{name}: unravel(ravel(t)) raised', case, rb)
+            continue
+        back = rb[1]
         bl, bspec = optree.tree_flatten(back)
         if bspec != spec or len(bl) != len(ls) or any(bits(be, a) != bits(be, b) for a, b in zip(bl, ls)):
             res.fail(f'{name}: unravel(ravel(t)) differs from t (structure, shape, dtype or bytes)', case)
         # any other vector of the same length and dtype
         other = be['mk'](np.asarray([(7 * i + 3) % 2 if min(dts) == 0 else (7 * i + 3) % 50 for i in range(got.shape[0])]), want_dt)
-        back2 = unravel(other)
+        rb2 = world.attempt(lambda: unravel(other))
+        if rb2[0] != 0:
+            res.fail(f'{name}: the unravel function raised on a vector of the right length and dtype (called again)', case, rb2)
+            continue
+        back2 = rb2[1]
         flat2, _ = be['ravel'](back2)
         bl2 = optree.tree_leaves(back2)
         if optree.tree_structure(back2) != spec or [be['tonp'](x).shape for x in bl2] != [be['tonp'](x).shape for x in ls]:
